@@ -911,9 +911,13 @@ fn judge_pub(init: PubInit, ex: &PubExec, reference: &BTreeMap<String, usize>) -
     if init == PubInit::DirP && !out_prev && !out_new && !(any_prev && any_new) {
         bad.push(format!("the previous set is no longer at the output path, the new set is not live, and not both copies survive on disk (previous somewhere: {any_prev}, new somewhere: {any_new}); top-level entries {tops:?}"));
     }
-    if init != PubInit::DirP && ex.result == "err" && !out_new && !any_new && ex.points.iter().any(|p| p.2 != 0) {
-        // publish failed after a complete stage existed: with no previous set the staged set is the only copy
+    if matches!(init, PubInit::Absent | PubInit::DanglingSymlink) && ex.result == "err" && !out_new && !any_new && ex.points.iter().any(|p| p.2 != 0) {
+        // publish failed after a complete stage existed: with nothing at the output path the staged set is the only copy
         bad.push(format!("publishing failed and the freshly built set is gone (no previous output existed); top-level entries {tops:?}"));
+    }
+    if init == PubInit::File && !out_new && classify(&ex.tree, OUT_NAME) != Class::FileIntact {
+        // a regular file at the output path is refused by design (the stage is discarded): the file itself must stay
+        bad.push(format!("the regular file that was at the output path is gone or altered and the new set is not live; top-level entries {tops:?}"));
     }
     if ex.result != "crash" && (ex.result == "ok") != out_new {
         bad.push(format!("the call returned {} but the new set is{} live at the output path", ex.result, if out_new { "" } else { " not" }));
